@@ -75,7 +75,13 @@ def workload(rng, n):
         else:
             c = t.gen_case(rng, profile="few", keylen=16)
             items.append(("tr31.str", (t.impl_header(c),)))
-    return items[:n]
+    # half of the items pass their byte-string arguments as mutable bytearrays (messages, keys, IVs, blocks)
+    out = []
+    for fn, args in items[:n]:
+        if fn not in ("tr31.unwrap", "tr31.str") and rng.random() < 0.5:
+            args = tuple(bytearray(a) if isinstance(a, bytes) else a for a in args)
+        out.append((fn, args))
+    return out
 
 
 def call(item):
